@@ -64,8 +64,9 @@ Qed.
 
 Section Finite.
 Variable orc : avop -> pstr -> pstr -> option bool.
+Variable cont : pstr -> bool.
 
-Lemma check_all c : check_class orc c = true.
+Lemma check_all c : check_class orc cont c = true.
 Proof.
   destruct c; [apply check_SerialGw|apply check_AsyncSerialGw|apply check_TCPGw|apply check_AsyncTCPGw
               |apply check_MQTTGw|apply check_AsyncMQTTGw].
@@ -73,17 +74,17 @@ Qed.
 
 Theorem documented_options_accepted (c : gwclass) (by_keyword : bool) (ch : list choice) :
   List.length ch = List.length (documented c) ->
-  exists h, construct_case orc c by_keyword ch = Ok h
+  exists h, construct_case orc cont c by_keyword ch = Ok h
     /\ (forall o v, In (o, v) (selected c ch) -> honoured (look h) c (selected c ch) o v)
     /\ required_visible (look h) c.
 Proof.
   intro Hlen. pose proof (check_all c) as H. unfold check_class in H.
   rewrite forallb_forall in H.
-  assert (Hk : forallb (check_case orc c by_keyword) (all_choices (List.length (documented c))) = true).
+  assert (Hk : forallb (check_case orc cont c by_keyword) (all_choices (List.length (documented c))) = true).
   { apply H. destruct by_keyword; simpl; auto. }
   rewrite forallb_forall in Hk. specialize (Hk ch).
   rewrite <- Hlen in Hk. specialize (Hk (all_choices_complete ch)).
-  unfold check_case in Hk. destruct (construct_case orc c by_keyword ch) as [h|e]; [|discriminate].
+  unfold check_case in Hk. destruct (construct_case orc cont c by_keyword ch) as [h|e]; [|discriminate].
   apply andb_prop in Hk. destruct Hk as [Hsel Hreq].
   exists h. split; [reflexivity|]. split.
   - intros o v Hin. rewrite forallb_forall in Hsel. specialize (Hsel (o, v) Hin).
@@ -99,7 +100,7 @@ Proof. vm_compute. reflexivity. Qed.
 
 (* non-vacuity: the README call with all seven serial options *)
 Example readme_serial_call :
-  exists h, construct_case (fun _ _ _ => None) SerialGw false [RepA; RepA; RepA; RepA; RepA; RepA; RepA] = Ok h
+  exists h, construct_case (fun _ _ _ => None) (fun _ => false) SerialGw false [RepA; RepA; RepA; RepA; RepA; RepA; RepA] = Ok h
     /\ look h (p ["tasks"; "transport"; "timeout"]%string) = Some (VFloat (s2p "2.5"))
     /\ look h (p ["tasks"; "persistence"; "persistence_file"]%string) = Some (VStr (s2p "a.json"))
     /\ look h (p ["const"]%string) = Some (VObj (s2p "mysensors.const_22")).
@@ -107,6 +108,6 @@ Proof. eexists. split; [vm_compute; reflexivity|]. vm_compute. auto. Qed.
 
 (* an undocumented keyword is refused, as Python does *)
 Example undocumented_keyword_refused :
-  construct (fun _ _ _ => None) classes (s2p "MQTTGateway") [VObj (s2p "pub"); VObj (s2p "sub")]
+  construct (fun _ _ _ => None) (fun _ => false) classes (s2p "MQTTGateway") [VObj (s2p "pub"); VObj (s2p "sub")]
     [(s2p "timeout", VFloat (s2p "1.0"))] = Raise TypeError.
 Proof. vm_compute. reflexivity. Qed.
